@@ -14,8 +14,8 @@ import (
 //verif:harness VerifC17_Getters quick.maxpaths=20000 thorough.maxpaths=20000 timeout=1200
 
 type zzC17Root struct {
-	A  int `json:"a"`
-	B  string
+	A  int    `json:"a"`
+	B  string `json:",omitempty"` // options but no name: the key is the field name
 	u  int
 	In zzC17Inner
 }
@@ -79,7 +79,11 @@ func VerifC17_Ops() {
 	L := zzBound("L", 4, 5)
 	var rootData any
 	rootMap := map[string]any{}
-	switch zzChoice("root", 4) {
+	switch zzChoice("root", 6) {
+	case 4: // root data only reachable through the fallback (no flattened copy in the root scope)
+		rootData = zzC17Root{A: 100, B: "bee"}
+	case 5:
+		rootData = &zzC17Root{A: 100, B: "bee"}
 	case 0:
 		rootMap["a"] = 100
 	case 1:
@@ -99,7 +103,13 @@ func VerifC17_Ops() {
 	ref.scopes = []map[string]any{rm}
 	next := 1
 	for step := 0; step < L; step++ {
-		switch zzChoice("op", 6) {
+		switch zzChoice("op", 7) {
+		case 6: // the caller changes the struct behind the root pointer: lookups and the merged environment follow
+			if p, ok := rootData.(*zzC17Root); ok {
+				p.A = 1000 + next
+				p.B = "b" + strconv.Itoa(next)
+				next++
+			}
 		case 0: // Push(nil)
 			s.Push(nil)
 			ref.scopes = append(ref.scopes, map[string]any{})
